@@ -186,4 +186,4 @@ static bool replay(const std::string &text) {
     return r.empty();
 }
 
-int main(int argc, char **argv) { return vp::main_(argc, argv, {run, replay}); }
+VP_MAIN(run, replay)
